@@ -17,6 +17,11 @@ PARAMS = [(0.15, 0.1, 20.0, 0.01), (0.30, 0.1, 20.0, 0.01), (0.2, 0.1, 8.0, 0.3)
           (0.2, 0.1, float("inf"), 0.01), (0.2, 0.25, 0.4, 0.01)]
 
 
+class ProtocolChanged(Exception):
+    """the code asks for its deviates in another way than the transcribed algorithm: the scripted unit-draw probes do not apply
+    (the covariance is then decided by regression_covariance alone)"""
+
+
 class Scripted(np.random.Generator):
     def __init__(self, seed=0):
         super().__init__(np.random.PCG64(seed))
@@ -28,9 +33,107 @@ class Scripted(np.random.Generator):
         if self.queue:
             v = np.asarray(self.queue.pop(0), float)
             if size is not None and tuple(np.atleast_1d(size)) != v.shape:
-                raise core.MachineryError("scripted draw of shape %s requested as %s" % (v.shape, size))
+                raise ProtocolChanged("scripted draw of shape %s requested as %s" % (v.shape, size))
             return loc + scale * v
         return super().normal(loc, scale, size)
+
+
+class Recording(np.random.Generator):
+    """a Generator that hands out ordinary deviates and remembers every one of them, in order"""
+
+    def __init__(self, seed=0):
+        super().__init__(np.random.PCG64(seed))
+        self.log = []
+
+    def normal(self, loc=0.0, scale=1.0, size=None):
+        v = super().standard_normal(size)
+        self.log.append(np.ravel(v).copy())
+        return loc + scale * v
+
+    def standard_normal(self, size=None, *a, **k):
+        v = super().standard_normal(size)
+        self.log.append(np.ravel(v).copy())
+        return v
+
+
+def regression_covariance(func, N, P, seed0):
+    """exact ensemble covariance of func's screen WITHOUT assuming how it asks for its deviates: run it on recorded generators,
+    regress the screens on the deviates (the screen must be a linear function of them), C = B^T B.
+    Returns (C, None) | (None, "why it could not be measured") | (None, ("violation key", detail))"""
+    r0, delta, L0, l0 = P
+    X, Y = [], []
+    n = None
+    k = 0
+    while n is None or len(X) < 2 * n + 4:
+        g = Recording(seed0 + k)
+        k += 1
+        y = np.asarray(func(r0, N, delta, L0, l0, seed=g), float)
+        x = np.concatenate(g.log) if g.log else np.zeros(0)
+        if n is None:
+            n = x.size
+            if n == 0:
+                return None, "no deviates drawn through Generator.normal / standard_normal"
+        if x.size != n:
+            return None, "the number of deviates varies between calls"
+        if y.shape != (N, N):
+            return None, ("%s:shape" % func.__name__, dict(N=N, shape=list(y.shape)))
+        if not np.all(np.isfinite(y)):
+            return None, ("%s:non-finite-screen" % func.__name__, dict(N=N, params=P))
+        X.append(x)
+        Y.append(y.ravel())
+    X, Y = np.array(X), np.array(Y)
+    B = np.linalg.lstsq(X, Y, rcond=None)[0]
+    if np.abs(X.dot(B) - Y).max() > 1e-9 * max(np.abs(Y).max(), 1e-300):
+        return None, ("%s:not-linear-in-draws" % func.__name__, dict(N=N, params=P, residual=float(np.abs(X.dot(B) - Y).max())))
+    return B.T.dot(B), None
+
+
+def model_maps(c, P):
+    """the model's linear maps draws -> screen for the high-frequency part (2 N^2 draws) and the sub-harmonics (54 draws)"""
+    N = c["N"]
+    zN, z9 = np.zeros((N, N)), np.zeros((3, 3))
+    Lhi = np.zeros((N * N, 2 * N * N))
+    for k in range(N * N):
+        e = zN.copy()
+        e.flat[k] = 1
+        Lhi[:, k] = expected_hi(c, P, e, zN).ravel()
+        Lhi[:, N * N + k] = expected_hi(c, P, zN, e).ravel()
+    Llo = np.zeros((N * N, 54))
+    idx = 0
+    for p in range(3):
+        for part in (0, 1):
+            for ij in range(9):
+                e = z9.copy()
+                e.flat[ij] = 1
+                draws = [((e, z9) if part == 0 else (z9, e)) if pp == p else (z9, z9) for pp in range(3)]
+                Llo[:, idx] = expected_lo(c, P, draws).ravel()
+                idx += 1
+    return Lhi, Llo
+
+
+def check_covariance(ps, c, P, seed0):
+    """the Def clause itself: exact ensemble covariance = the model's (inverse DFT sum of the sampled spectrum, zero frequency
+    removed; plus, for the sub-harmonic variant, the three 3x3 sub-grids, mean removed), whatever the draw protocol"""
+    N = c["N"]
+    Lhi, Llo = model_maps(c, P)
+    Chi, Clo = Lhi.dot(Lhi.T), Llo.dot(Llo.T)
+    bad, notes = [], []
+    for f, want, name in ((ps.ft_phase_screen, Chi, "ft_phase_screen"), (ps.ft_sh_phase_screen, Chi + Clo, "ft_sh_phase_screen")):
+        C, why = regression_covariance(f, N, P, seed0)
+        if C is None:
+            if isinstance(why, tuple):
+                bad.append(why)
+            else:
+                notes.append("%s: %s" % (name, why))
+            continue
+        tol = 1e-8 * np.abs(want).max()
+        if np.abs(C - want).max() > tol:
+            i, j = np.unravel_index(int(np.argmax(np.abs(C - want))), C.shape)
+            part = ""
+            if name == "ft_sh_phase_screen":
+                part = ":sub-harmonic-part-missing" if np.abs(C - Chi).max() <= tol else ""
+            bad.append(("%s:ensemble-covariance%s" % (name, part), dict(N=N, params=P, pixels=[int(i), int(j)], got=float(C[i, j]), expected=float(want[i, j]))))
+    return bad, notes
 
 
 def psd(f, r0, L0, l0):
@@ -128,7 +231,7 @@ def check_size(ps, c, rng, quick):
                         ncmp += 1
                         sc = max(np.abs(want).max(), 1e-300)
                         if gen.queue:
-                            return [("ft_sh_phase_screen:draw-protocol", dict(N=N, calls=[str(s) for s in gen.calls]))], ncmp
+                            raise ProtocolChanged("sub-harmonic deviates not requested: calls %s" % [str(s_) for s_ in gen.calls])
                         if got.shape != (N, N) or not np.allclose(got, want, rtol=0, atol=1e-10 * max(sc, 1e-6 * scale)):
                             what = "centre-not-removed" if (i, j) == (1, 1) else "unit-draw-pattern"
                             return [("ft_sh_phase_screen:%s" % what, dict(N=N, params=P, p=p + 1, element=[i, j],
@@ -251,9 +354,22 @@ def run(run):
     var0 = {}
     coupled = {}
     modes = {}
+    ncov = unmeasured = 0
     for c in sorted(r.printed, key=lambda d: d["N"]):
         with np.errstate(all="ignore"):
-            bad, ncmp = check_size(ps, c, rng, quick)
+            try:
+                bad, ncmp = check_size(ps, c, rng, quick)
+            except ProtocolChanged as ex:
+                bad, ncmp = [], 0
+                run.drift("draw-protocol-differs-from-transcription", dict(N=c["N"], why=str(ex)[:200]))
+            if c["N"] <= (8 if quick else 12):
+                for P in PARAMS:
+                    b2, notes = check_covariance(ps, c, P, 1000 + run.seed % 1000)
+                    bad += b2
+                    ncov += 2
+                    for nt in notes:
+                        run.drift("ensemble-covariance-not-measurable", dict(N=c["N"], why=nt))
+                        unmeasured += 1
         total += ncmp
         for key, detail in bad:
             run.violation(key, detail, dict(kind="size", N=c["N"]))
@@ -274,10 +390,12 @@ def run(run):
                 if rel < -1e-9:
                     run.violation("ft_sh_phase_screen:same-seed-coupling-lowers-structure-function", dict(N=c["N"], params=P, rel=rel),
                                   dict(kind="size", N=c["N"]))
-    run.traces += total
+    run.traces += total + ncov
+    if ncov and unmeasured == ncov:
+        raise core.MachineryError("no ensemble covariance could be measured (deviates not drawn through the Generator?)")
     c0 = sorted(r.printed, key=lambda d: d["N"])[1 if len(r.printed) > 1 else 0]
     run.sample(dict(N=c0["N"], freq=c0["freq"], dc=c0["dc"], E=c0["E"], sh_orders=[s["order"] for s in c0["sh"]]))
-    run.aux.update(unit_draw_probes=total, model_variance_per_size=var0, int_seed_coupled_min_dD_over_maxD=coupled, int_seed_draw_protocol=modes,
+    run.aux.update(unit_draw_probes=total, model_variance_per_size=var0, int_seed_coupled_min_dD_over_maxD=coupled, int_seed_draw_protocol=modes, regression_covariances=ncov, regression_unmeasurable=unmeasured,
                    trusted=["numpy exp/sqrt for the spectrum value (an atom in the model)"])
     run.assumptions += [
         "the two convergence clauses (structure function -> analytic as the grid is refined; sub-harmonics closer at large "
@@ -296,7 +414,13 @@ def replay(run, case):
     for c in r.printed:
         if c["N"] == case["N"]:
             with np.errstate(all="ignore"):
-                bad, _ = check_size(ps, c, rng, True)
+                try:
+                    bad, _ = check_size(ps, c, rng, True)
+                except ProtocolChanged:
+                    bad = []
+                if c["N"] <= 12:
+                    for P in PARAMS:
+                        bad += check_covariance(ps, c, P, 1000 + run.seed % 1000)[0]
                 for P in PARAMS:
                     if 6 <= c["N"] <= 10 and int_seed_mode(ps, c, P) == "coupled" and coupled_ensemble(c, P) < -1e-9:
                         bad.append(("ft_sh_phase_screen:same-seed-coupling-lowers-structure-function", dict(N=c["N"], params=P)))
